@@ -36,8 +36,10 @@ CAN = {
     "malformed": "c3" * 8 + "5ec0de04" * 6,
     "stale": "zs" * 8 + "5ec0dest" * 6,        # non-hex key material left in the store by an earlier version
     "ok3": "d4" * 8 + "5ec0de05" * 6,
+    "non200": "e5" * 8 + "5ec0de06" * 6,       # a key document delivered with a status other than 200
 }
 G += ["c12c12c1-0001-4000-8000-00000000000%d" % i for i in range(6, 9)]
+G += ["c12c12c1-0001-4000-8000-0000000000a%d" % i for i in range(1, 3)]
 
 
 def renderings(c):
@@ -90,7 +92,7 @@ def run(c):
     build.cargo_build("agent")
     r1 = c.tlc("KeySecret", "KeySecret_redacted.cfg", workers=2, timeout=120,
                required_actions=["AcquireOk", "AcquireNonHex", "AcquireMalformed", "FetchLocal", "PublishStatus", "ProvisionQuery", "ProxySign",
-                                 "UndeliveredReply"])
+                                 "UndeliveredReply", "AcquireNon200"])
     if r1.violated:
         raise tlcmod.TlcError("KeySecret.tla (redacted design) violates %s" % r1.invariant_violated)
     r2 = c.tlc("KeySecret", "KeySecret_asfound.cfg", workers=2, timeout=120, expect_ok=False)
@@ -117,6 +119,12 @@ def run(c):
     steps += [plan("POST /secure-channel/key", 200, '{"authorizationScheme": "Azure-HMAC-SHA256", "key": "%s", "guid": 7}' % CAN["malformed"]),
               plan("GET /secure-channel/status", 200, status_doc(G[3])), {"op": "sleep", "ms": 500},
               {"op": "key_state", "tag": "malformed"}] + traffic("t4") + [{"op": "mark", "tag": "phase:malformed"}]
+    # the key request is answered with a status other than 200 (201 Created, then 500) whose body is a complete key document:
+    # the agent treats it as a failure; whatever it says about that failure must not quote the body
+    steps += [plan("POST /secure-channel/key", 201, key_doc(G[9], CAN["non200"])),
+              plan("GET /secure-channel/status", 200, status_doc(G[9])), {"op": "sleep", "ms": 400},
+              plan("POST /secure-channel/key", 500, key_doc(G[9], CAN["non200"])), {"op": "sleep", "ms": 300},
+              {"op": "key_state", "tag": "non200"}] + traffic("t8") + [{"op": "mark", "tag": "phase:non200"}]
     # a key file left by an earlier run/version holds key material that is not hex; the host names that key
     keys_dir = os.path.join(d0, "keys")
     steps += [{"op": "write_file", "path": os.path.join(keys_dir, G[5] + ".key"), "text": json.dumps(key_doc(G[5], CAN["stale"]))},
